@@ -212,3 +212,29 @@ impl<VM: VMBinding> ForwardingMetadata<VM> {
         self.calculated.load(Ordering::Relaxed)
     }
 }
+
+/// Verification hooks: the private transducer and the region-typed entry point.
+#[cfg(mmtk_verif)]
+pub mod verif {
+    use super::*;
+
+    /// `Transducer::visit_mark_bit` on a state given as plain values.
+    pub fn visit_mark_bit(to: Address, last: Address, in_object: bool, bit: Address) -> (Address, Address, bool) {
+        let mut t = Transducer { to, last_bit_visited: last, in_object };
+        t.visit_mark_bit(bit);
+        (t.to, t.last_bit_visited, t.in_object)
+    }
+    /// `Transducer::encode`.
+    pub fn encode(to: Address, last: Address, in_object: bool, current_position: Address) -> usize {
+        Transducer { to, last_bit_visited: last, in_object }.encode(current_position)
+    }
+    /// `Transducer::decode`.
+    pub fn decode(offset: usize, current_position: Address) -> (Address, Address, bool) {
+        let t = Transducer::decode(offset, current_position);
+        (t.to, t.last_bit_visited, t.in_object)
+    }
+    /// `ForwardingMetadata::calculate_offset_vector` (its region type is crate-private).
+    pub fn calculate_offset_vector<VM: VMBinding>(m: &ForwardingMetadata<VM>, region_start: Address, cursor: Address) {
+        m.calculate_offset_vector(CompressorRegion::from_aligned_address(region_start), cursor)
+    }
+}
